@@ -23,7 +23,7 @@ def sh(cmd, **kw):
 
 
 def run_verus(path, rlimit, seed, extra=()):
-    cmd = ["verus", os.path.basename(path), "--output-json", "--time", "--multiple-errors", "8", "--error-format=json", "--rlimit", str(rlimit)]
+    cmd = ["verus", os.path.basename(path), "--output-json", "--time", "--multiple-errors", "8", "--error-format=json", "--triggers-mode", "silent", "--rlimit", str(rlimit)]
     if seed:
         cmd += ["--smt-option", "smt.random_seed=%d" % (seed % 1000000), "--smt-option", "sat.random_seed=%d" % (seed % 1000000)]
     cmd += list(extra)
